@@ -74,8 +74,13 @@ def evaluate(payload):
         # where: first differing top-level block kind
         ka = [n[0] if not isinstance(n, list) else n[0] for n in a]
         kb = [n[0] if not isinstance(n, list) else n[0] for n in b]
-        res["fail"] = (f"{kind}", {"configuration": cfg, "after_fix": after, "blocks_before": ka, "blocks_after": kb, "before": repr(a)[:400], "after": repr(b)[:400]})
-        res["outcome"] = kind
+        i = 0
+        while i < min(len(ka), len(kb)) and ka[i] == kb[i]:
+            i += 1
+        x = ka[i] if i < len(ka) else "same-blocks"
+        y = kb[i] if i < len(kb) else "same-blocks"
+        res["fail"] = (f"{kind}:{x}-becomes-{y}", {"configuration": cfg, "after_fix": after, "blocks_before": ka, "blocks_after": kb, "before": repr(a)[:400], "after": repr(b)[:400]})
+        res["outcome"] = res["fail"][0]
     else:
         res["outcome"] = "style-only"
     return res
@@ -90,9 +95,10 @@ def classify(key, sig, detail):
         i += 1
     x = ka[i] if i < len(ka) else "end"
     y = kb[i] if i < len(kb) else "end"
+    base = sig.split(":")[0]
     if x == y:
-        return f"{sig}-{who}-inside-{x}", f"fix ({who}) changes content inside a {x} block ({sig})"
-    return f"{sig}-{who}-{x}-becomes-{y}", f"fix ({who}) changes the document's meaning: a {x} block becomes {y} ({sig})"
+        return f"{base}-{who}-inside-{x}", f"fix ({who}) changes content inside a {x} block ({base})"
+    return f"{base}-{who}-{x}-becomes-{y}", f"fix ({who}) changes the document's meaning: a {x} block becomes {y} ({base})"
 
 
 def run(tier, return_info=False):
